@@ -912,6 +912,28 @@ def r1(rep, crates):
         steps, term, mk = chain(s)
         marked.setdefault(s.f.path, set()).update(mk)
         if s.ord >= len(es):
+            # The code may have moved to another function of the same crate (helper extraction): a row for the same
+            # container (receiver type and field path) and the same order-yielding call whose function no longer has
+            # that site vouches for it, PROVIDED its guard is re-derived successfully on the site's new home.
+            c_, fn_, recv_, callee_ = s.key()
+            live_keys = {x.key() for x in sites}
+            cands = [e for k_, rows in idx.items() for e in rows
+                     if k_[0] == c_ and k_[2] == recv_ and k_[3] == callee_ and k_[1] != fn_ and id(e) not in used
+                     and k_ not in live_keys]
+            moved = None
+            for e in cands:
+                ok_m, d_m = check_guard(rep, s, e, crates, steps, term, mk)
+                if ok_m and e.get("guard") != "unordered":
+                    moved = (e, d_m)
+                    break
+            if moved is not None:
+                e, d_m = moved
+                used.add(id(e))
+                g = e.get("guard")
+                per_kind[g] = per_kind.get(g, 0) + 1
+                nguarded += 1
+                rep.ob("R15.1", inst, True, f"guard `{g}` of the row for {e['fn']} (the iteration moved here): {d_m}", loc)
+                continue
             ok, d = auto_guard(s, steps, term)
             rep.ob("R15.1", inst, False,
                    f"hash-order site is not in the triage table rules/c15_sites.json (chain: {'>'.join(steps) or '-'}; {d})", loc)
@@ -1029,6 +1051,21 @@ def r2(rep, crates):
         rep.saw(main)
         its = main.calls("Files::iter")
         wr = main.calls(["std::fs::write", "std::fs::read"])
+        # a private helper of the binary that reads / writes and is called only from main counts at its call site
+        helper_io = {}
+        for g in cli.fns.values():
+            if g is main or "{closure" in fn_key(g):
+                continue
+            if g.calls(["std::fs::write", "std::fs::read"]):
+                helper_io[fn_key(g)] = g
+        for cl in main.calls():
+            for hn, g in helper_io.items():
+                if any(mir.norm(n).endswith("::" + hn) or mir.norm(n) == "crate::" + hn for n in cl.names()):
+                    only_main = all(fn_key(x) == "main" or fn_key(x).startswith("main::") for x in cli.fns.values()
+                                    for c2 in x.calls() if any(mir.norm(n).endswith("::" + hn) or mir.norm(n) == "crate::" + hn
+                                                               for n in c2.names()))
+                    if only_main:
+                        wr = wr + [cl]
         rep.floor("R15.2", "fs::write / fs::read in the CLI's main", len(wr), 2)
         loops = []
         for it_ in its:
@@ -1043,8 +1080,14 @@ def r2(rep, crates):
             rep.ob("R15.2", f"CLI: {short_callee(w)} happens inside the loop over Files::iter", w.bb in inside,
                    "an output is written / compared outside the sorted enumeration of Files", main.loc(w.bb))
         # nothing else in the CLI writes files
+        counted = {id(w) for w in wr}
+        via_main = set()
+        for cl in wr:
+            if not cl.matches(["std::fs::write", "std::fs::read"]):
+                via_main |= {hn for hn in helper_io if any(mir.norm(n).endswith("::" + hn) or mir.norm(n) == "crate::" + hn
+                                                          for n in cl.names())}
         others = [(f, c) for f in cli.fns.values() for c in f.calls(["std::fs::write", "std::fs::File::create"])
-                  if f is not main]
+                  if f is not main and fn_key(f) not in via_main]
         rep.ob("R15.2", "CLI: no output is written outside main's loop", not others,
                ", ".join(fn_key(f) for f, _ in others), main.loc())
 
@@ -1110,6 +1153,31 @@ def r3(rep, crates):
                         owner = re.sub(r"(::\{closure#\d+\})+$", "", fn_key(f))
                         hits.setdefault((cname, owner, what), []).append((f, call))
     seen_known = set()
+
+    def callers_of(cname, fname):
+        c = crates[cname]
+        out = set()
+        for g in c.fns.values():
+            for cl in g.calls():
+                if any(mir.norm(n).split("::")[-1] == fname.split("::")[-1] and
+                       (mir.norm(n).endswith("::" + fname) or mir.norm(n) == "crate::" + fname) for n in cl.names()):
+                    out.add(re.sub(r"(::\{closure#\d+\})+$", "", fn_key(g)))
+        return out
+
+    def vouching_owner(cname, fn, what, depth=3):
+        """the enumerated function that is the only (transitive) caller of helper `fn`, if any"""
+        cur = {fn}
+        for _ in range(depth):
+            nxt = set()
+            for x in cur:
+                cs = callers_of(cname, x)
+                if not cs:
+                    return None
+                nxt |= cs
+            if all((cname, x, what) in KNOWN for x in nxt) and len(nxt) == 1:
+                return next(iter(nxt))
+            cur = nxt
+        return None
     for (cname, fn, what), lst in sorted(hits.items()):
         f, call = lst[0]
         rep.saw(f)
@@ -1117,6 +1185,11 @@ def r3(rep, crates):
         why = KNOWN.get((cname, fn, what))
         if why:
             seen_known.add((cname, fn, what))
+        else:
+            own = vouching_owner(cname, fn, what)
+            if own is not None:
+                why = f"private helper reached only from {own}: " + KNOWN[(cname, own, what)]
+                seen_known.add((cname, own, what))
         callee = ", ".join(sorted({short_callee(c) for _, c in lst}))
         rep.ob(rule, f"{what} in {cname}::{fn} ({callee})", why is not None,
                why or f"{what} in a generator path: two runs on the same input can differ", f.loc(call.bb))
